@@ -171,7 +171,7 @@ def _parse(r):
         r.trace = parse_trace(out)
 
 
-_STATE = re.compile(r"^State (\d+): <?([^>\n]*)>?\s*$", re.M)
+_STATE = re.compile(r"^State (\d+): <?(.*?)>?\s*$", re.M)
 
 
 def parse_trace(out):
